@@ -12,6 +12,8 @@ DELEGATED = [b"%a", b"%A", b"%b", b"%B", b"%c", b"%C", b"%D", b"%F", b"%g", b"%G
 # NUL bytes as ordinary text between library-rendered specifiers (and around delegated ones, where the answer is open)
 # the same specifier family more than once in one format, in both orders (no state may leak from one conversion to the next)
 ORDERS = [b"%W %U", b"%U %W", b"%W|%U|%W|%U", b"%u %w %u", b"%d %e %d", b"%E3S %E*S %E1f %E*f %S", b"%z %Ez %:z %z", b"%Z %z %Z", b"%Y %E4Y %Y", b"%H %I %H", b"%s %S %s"]
+# single conversions with a GNU field width around the 16x buffer rule (dropped or not - but always the same way)
+WIDTHS = [b"%70j", b"%64j", b"%48j", b"%47j", b"%200A", b"[%Y-%m-%d %90j %H:%M]", b"%100j", b"%99d|%Y", b"%63d", b"%64d", b"%^a %-j %_j %#Z", b"%EZ %Oz %Es %-s"]
 WIDE = [b"%c" * 9, b"%c" * 11, b"%c," * 11, b"%Ec" * 11, b"%c" * 15, b"%H:%M " + b"%c" * 11 + b" %Z%z", b"%c" * 16 + b"|%Y", b"%x%X" * 12, b"%A%B" * 8, b"%c" * 32]
 NULS = [b"a\x00b %Y-%m-%d", b"%Y\x00%m\x00%d", b"[%Ez]\x00[%E3S]\x00[%Z]", b"\x00%H:%M", b"%H\x00", b"\x00", b"%%\x00%%%S", b"%a\x00x%Y", b"%\x00abc", b"%E\x00S"]
 SPELLINGS = [b"%E0003S", b"%E00003S", b"%E00015f", b"%E01024f", b"%E01025f", b"%E000000006S", b"%E00000f", b"%E00S", b"%E0000000001024S",
@@ -27,7 +29,7 @@ REPO = [b"%Y-%m-%d%ET%H:%M:%E*S%Ez", b"%Y-%m-%d%ET%H:%M:%S%Ez", b"%a, %d %b %E4Y
 
 def formats(seed, n):
     r = random.Random(seed)
-    out = list(REPO) + INTERNAL + DELEGATED + DANGLING + NULS + WIDE + ORDERS + SPELLINGS + [b"x" + t + b"|%S" for t in SPELLINGS]
+    out = list(REPO) + INTERNAL + DELEGATED + DANGLING + NULS + WIDE + WIDTHS + ORDERS + SPELLINGS + [b"x" + t + b"|%S" for t in SPELLINGS]
     toks = INTERNAL + DELEGATED + LIT + DANGLING + SPELLINGS[:6]
     # all pairs of (internal|delegated|dangling) with a separator class: the cut points of the scanner
     for a, b in itertools.product(INTERNAL[:24] + DELEGATED[:12] + DANGLING[:12], repeat=2):
